@@ -4,6 +4,7 @@ Monitor: icontract post-conditions (vlib/contracts19.py) on the real functions.
 Workload: (a) exhaustive over all sorted disjoint interval lists (and pairs) over a bounded universe,
 (b) random large instances, (c) the repository's own test-suite executed with the contracts switched on.
 """
+import copy
 import itertools
 import os
 import random
@@ -60,14 +61,29 @@ def _alarm(signum, frame):
     raise Timeout()
 
 
+def _plain_data(x):
+    if isinstance(x, (int, float, str, bool, type(None))):
+        return True
+    if isinstance(x, (list, tuple)):
+        return all(_plain_data(y) for y in x)
+    return False
+
+
 def _call(res, name, f, *args):
     """call a contracted function; record exceptions/time-outs as violations"""
     from vlib import contracts19 as C
     res["calls"] += 1
     # CPU time of this process, not wall-clock time: a loaded machine must not turn into a verdict
     signal.setitimer(signal.ITIMER_VIRTUAL, 6.0)
+    plain = all(_plain_data(a) for a in args)
+    before = copy.deepcopy(args) if plain else None
     try:
-        return f(*args)
+        r = f(*args)
+        # the primitives are functions of their arguments: the caller's lists are left as they were (judged for arguments made of numbers,
+        # strings, lists and tuples only)
+        if plain and args != before:
+            res["viol"].append((name + ":argument-modified", repr(before)[:300], "arguments after the call: %s" % repr(args)[:300]))
+        return r
     except C.PostBroken:
         v = C.VIOLATIONS[-1] if C.VIOLATIONS else (name, repr(args), "?")
         res["viol"].append((name + ":wrong-result", v[1], v[2]))
